@@ -21,7 +21,12 @@ RULE = ('reference-encoded bpch images with 1-4 time blocks, 1-3 diagnostic '
         'correctly; four laws per image: (1) read(noscale) -> write '
         'reproduces the bytes, (2) scaled read == raw x SCALE and the unit '
         'is the table row\'s, (3) read(write(f)) == f, (4) the block-walking '
-        'reader presents the same data as the memory-mapped one. '
+        'reader presents the same data as the memory-mapped one; plus (2b) '
+        'tables rewritten in place between two opens, (5) write from a '
+        'scaled read, and every sixth image an irregular layout (an interior '
+        'time block carries another tracer in one slot) that the fixed-layout '
+        'reader must reject or read right and the default reader must '
+        'present block by block. '
         'non-trivial = >= 2 data blocks; distinct = digest of the spec.')
 ASSUMPTIONS = [
     'the reference codec follows the GEOS-Chem/GAMAP "CTM bin 02" '
